@@ -336,6 +336,7 @@ pub fn check(fam: &'static dyn Family, tier: Tier, workers: usize) -> CheckOutco
         "simulated_time": {"unit": "logical steps (executor polls + seam events); the code under test has no clock or timer", "steps": stats.steps},
         "faults_fired": stats.faults,
         "probes": stats.probes,
+        "measured_maxima": stats.maxima,
         "counters": stats.counters,
         "distinct_interleavings": stats.interleavings.len(),
         "distinct_final_states": stats.states.len(),
